@@ -49,6 +49,7 @@ MUTATORS = {
     "perturb",
     "replace",
     "prior_predict",
+    "sub_mode",
     "bad_set_train_data",
     "bad_load_state_dict",
     "bad_predict",
@@ -97,6 +98,7 @@ def generate(rng, tier, index):
         "backward": 0.8,
         "perturb": 1.0,
         "prior_predict": 0.6,
+        "sub_mode": 0.8,
     }
     for k in list(kinds):
         if k != "predict" and rng.random() < 0.35:
@@ -140,7 +142,7 @@ def generate(rng, tier, index):
     ops = []
     # stratified prefixes: the first runs of a batch walk over all (mutator) x (family is random) orders
     # predict -> X -> predict, so every short order occurs in each batch
-    strat = sorted(k for k in MUTATORS if k in ("train", "eval", "train_steps", "set_train_data", "load_state_dict", "fantasize", "backward", "perturb", "prior_predict", "bad_set_train_data", "bad_load_state_dict", "bad_predict", "fault_predict", "bad_fantasize"))
+    strat = sorted(k for k in MUTATORS if k in ("train", "eval", "train_steps", "set_train_data", "load_state_dict", "fantasize", "backward", "perturb", "prior_predict", "sub_mode", "bad_set_train_data", "bad_load_state_dict", "bad_predict", "fault_predict", "bad_fantasize"))
     forced = None
     if index < 4 * len(strat) * 2:
         forced = strat[(index // 2) % len(strat)]
@@ -169,6 +171,8 @@ def gen_op(rng, k, recipe, iterative, allow, p_each):
         return gen_predict(rng, recipe, iterative, allow, p_each)
     if k in ("train", "eval", "snapshot"):
         return {"op": k}
+    if k == "sub_mode":
+        return {"op": k, "target": rng.choice(["likelihood", "covar_module", "mean_module"]), "train": rng.random() < 0.5}
     if k == "train_steps":
         return {"op": k, "k": rng.randint(1, 3), "opt": rng.choice(["sgd", "adam"]), "lr": rng.choice([0.05, 0.2])}
     if k == "set_train_data":
@@ -287,9 +291,10 @@ def bundle_class(b):
 
 
 def ensure_eval(ctx):
-    if ctx.M.training:
-        ctx.M.eval()
-    if ctx.M.likelihood is not None and ctx.M.likelihood.training:
+    # what users do before predicting: model.eval(); likelihood.eval() - also when the root already is in eval mode
+    # (a root-level call re-synchronises submodules that were switched on their own; it keeps the root's caches)
+    ctx.M.eval()
+    if ctx.M.likelihood is not None:
         ctx.M.likelihood.eval()
 
 
@@ -479,6 +484,11 @@ def step(ctx, i, op):
         M.eval()
         M.likelihood.eval()
         ctx.mutated_since_obs = True
+    elif k == "sub_mode":
+        # a submodule switched on its own (e.g. likelihood.train() for a likelihood-only fit, covar_module.eval())
+        getattr(M, op["target"]).train(op["train"])
+        ctx.mutated_since_obs = True
+        tag = "sub_mode[%s,%s]" % (op["target"], "T" if op["train"] else "E")
     elif k == "snapshot":
         ctx.snaps.append({kk: v.detach().clone() for kk, v in M.state_dict().items()})
     elif k == "train_steps":
@@ -525,6 +535,14 @@ def step(ctx, i, op):
         else:
             donor = zoo.build_exact(recipe, data=_cur_data(M, recipe))
             zoo.randomise_parameters(donor, op["seed"])
+            # a donor that has been used once, like a trained model: buffers that are created lazily (RFF weights of a
+            # kernel built without num_dims, a dynamic KISS-GP grid) exist in its state dict
+            donor.eval()
+            try:
+                with torch.no_grad():
+                    donor(*test_args(recipe, {"seed": op["seed"] + 1, "t": 2}))
+            except Exception:  # noqa
+                pass
             sd = donor.state_dict()
             scope = op.get("scope", "all")
             if scope != "all":
@@ -541,7 +559,12 @@ def step(ctx, i, op):
                     if kk in sd and sd[kk].shape == cur[kk].shape:
                         cur[kk] = sd[kk].detach().clone()
                 sd = cur
-        M.load_state_dict(sd)
+        try:
+            M.load_state_dict(sd)
+        except RuntimeError:
+            # a strict load that torch rejects (e.g. the state dict lacks a lazily created buffer): a failed operation
+            out.stats["rejected:load_state_dict_strict_mismatch"] += 1
+            ctx.failed_since_obs = True
         ctx.mutated_since_obs = True
     elif k == "fantasize":
         if M.training or M.prediction_strategy is None:
